@@ -176,6 +176,52 @@ func main() {
 	out = bufio.NewWriterSize(os.Stdout, 1<<20)
 	defer out.Flush()
 
+	// keys whose hash code is a boundary value (sign bit, all ones, zero), against every
+	// balancer that interprets the hash, for partition counts that are and are not powers of two
+	for _, target := range boundaryHashes {
+		var keys [][]byte
+		for _, k := range fnvPreimages(target, 3) {
+			h := fnv.New32a()
+			h.Write(k)
+			if h.Sum32() != target {
+				panic("fnv preimage search is wrong")
+			}
+			keys = append(keys, k)
+		}
+		if k := murmur2Preimage(target); kafka.VerifMurmur2(k) == target {
+			keys = append(keys, k)
+		} else {
+			panic("murmur2 preimage is wrong")
+		}
+		if k := crcPreimage(target); k != nil && crc32.ChecksumIEEE(k) == target {
+			keys = append(keys, k)
+		} else {
+			panic("crc preimage is wrong")
+		}
+		for _, k := range keys {
+			feat := fmt.Sprintf("boundary-hash=%x", target)
+			hh := fnv.New32a()
+			hh.Write(k)
+			emit("fnv", kvfmt.Bytes(k), kvfmt.U(uint64(hh.Sum32())), feat)
+			emit("crc", kvfmt.Bytes(k), kvfmt.U(uint64(crc32.ChecksumIEEE(k))), feat)
+			emit("mm", kvfmt.Bytes(k), kvfmt.U(uint64(kafka.VerifMurmur2(k))), feat)
+			for _, n := range []int{1, 2, 3, 5, 6, 7, 12, 64, 100, 1000, 65535, 65537} {
+				h := &kafka.Hash{}
+				p := h.Balance(kafka.Message{Key: k}, offered(n)...)
+				emit("hashseq", fmt.Sprintf("%x:%s", n, kvfmt.OptBytes(k)), kvfmt.I(int64(p)), feat+","+nFeat(n))
+				rh := &kafka.ReferenceHash{}
+				p = rh.Balance(kafka.Message{Key: k}, offered(n)...)
+				emit("ref", fmt.Sprintf("%x %s", n, kvfmt.OptBytes(k)), kvfmt.I(int64(p)), feat+","+nFeat(n))
+				if n <= 1000 {
+					ps := offered(n)
+					p = kafka.CRC32Balancer{Consistent: true}.Balance(kafka.Message{Key: k}, ps...)
+					emit("crcb", fmt.Sprintf("1 %s %s", kvfmt.Ints(ps), kvfmt.OptBytes(k)), kvfmt.I(int64(p)), feat+",cons=true")
+					p = kafka.Murmur2Balancer{Consistent: true}.Balance(kafka.Message{Key: k}, ps...)
+					emit("mmb", fmt.Sprintf("1 %s %s", kvfmt.Ints(ps), kvfmt.OptBytes(k)), kvfmt.I(int64(p)), feat+",cons=true")
+				}
+			}
+		}
+	}
 	// raw hashes
 	for i := 0; i < *count; i++ {
 		k := genKey(r)
